@@ -69,6 +69,7 @@ Print Assumptions C14_half_cell_shift_rejected.
 
 Example C14_half_cell_shift_rejected_nonvacuous : 0 < 1 /\ 0 <= align_tol /\ 2 * align_tol < 1.
 Proof. unfold align_tol, Constants_gen.align_tolerance_default. repeat split; lra. Qed.
+Print Assumptions C14_half_cell_shift_rejected_nonvacuous.
 
 Theorem C14_whole_cells_pass : forall (tol c : Q) (k : Z), 0 < c -> 0 <= tol ->
   bad_rem tol c (inject_Z k * c) = false.
@@ -115,6 +116,7 @@ Print Assumptions C14_partial_accept_and_extract_axis.
 
 Example C14_ax_inv_nonvacuous : ax_inv 0 4 4 1 3.
 Proof. exists 1%Z, 3%Z. split; [lia|]. split; reflexivity. Qed.
+Print Assumptions C14_ax_inv_nonvacuous.
 
 (* the whole-cell form is preserved by every affine map x -> a*x + b with a <> 0 applied to mesh and
    subregion alike, corners re-ordered: translate (a = 1), scale about a reference point
@@ -165,3 +167,4 @@ Print Assumptions C14_partial_sel_clip_axis.
 
 Example C14_sel_nonvacuous : keeps 0 4 4 1 3 2 3 = true /\ keeps 0 4 4 1 3 3 3 = false.
 Proof. split; vm_compute; reflexivity. Qed.
+Print Assumptions C14_sel_nonvacuous.
